@@ -153,10 +153,16 @@ structure Np (Pts A : Type) where
   kernel : Nat → A → A
   /-- `np.linalg.svd(a)` -/
   svd : A → A × A × A
-  /-- `s.shape[0] - sum(s < floor)` -/
-  keep : A → Rat → Nat
-  /-- `u[:, :k].dot(1.0 / s[:k, None] * v[:k, :])` -/
-  pinv : A → A → A → Nat → A
+  /-- `sum(s < floor)` -/
+  nBelow : A → Rat → Nat
+  /-- `s.shape[0] - n` -/
+  keep : A → Nat → Nat
+  /-- `1.0 / s[:k, None]` -/
+  invSing : A → Nat → A
+  /-- `a * v[:k, :]` -/
+  scaleRows : A → A → Nat → A
+  /-- `u[:, :k].dot(x)` -/
+  leftDot : A → Nat → A → A
   /-- `a.dot(b)` -/
   dot : A → A → A
   /-- `points[trilist]` with the triangle list of the (TriMesh) point set given -/
@@ -184,8 +190,8 @@ def Np.tpsL (np : Np Pts A) (e : Ext Pts A) (kernel : Nat) (s : Pts) : A :=
 def Np.tpsCoef (np : Np Pts A) (l : A) (floor : Rat) (t : Pts) : A :=
   let y := np.hcat (np.tr (np.pts t)) (np.zeros 2 3)
   let usv := np.svd l
-  let keep := np.keep usv.2.1 floor
-  np.dot (np.pinv usv.1 usv.2.1 usv.2.2 keep) (np.tr y)
+  let keep := np.keep usv.2.1 (np.nBelow usv.2.1 floor)
+  np.dot (np.leftDot usv.1 keep (np.scaleRows (np.invSing usv.2.1 keep) usv.2.2 keep)) (np.tr y)
 
 /-- the PWA target vectors as `_rebuild_target_vectors` computes them -/
 def Np.pwaVectors (np : Np Pts A) (s t : Pts) : A :=
